@@ -144,9 +144,13 @@ def judge_raire(case):
         want[b[0]][k1] = {c: k + 1 for k, c in enumerate(r2)}
     try:
         got, n = CVR.from_raire(rows)
+        # the same rows object read once more (scripts re-use it for the next estimator): the same cards again
+        got_again, _ = CVR.from_raire(rows)
     except Exception as e:  # noqa
         return [(f"C18|from_raire|exception|{type(e).__name__}", f"{type(e).__name__}: {str(e)[:80]}")]
     out = []
+    if [(c.id, c.votes) for c in got_again] != [(c.id, c.votes) for c in got]:
+        return [("C18|from_raire|second-read-differs", f"reading the same rows a second time gives {[(c.id, c.votes) for c in got_again][:4]}, the first time {[(c.id, c.votes) for c in got][:4]}")]
     if [c.id for c in got] != list(want):
         out.append(("C18|from_raire|identifiers", f"cards {[c.id for c in got]}, expected {list(want)} (header lines declared: {ncon})"))
         return out
